@@ -750,10 +750,22 @@ def inject(ctx):
             fields_ = {pr[0]['name'] for pr in stores_ if pr and pr[0].get('k') == 'Field'}
             okw = bool(inits) and all(whole_clone(d_) for d_ in inits) and fields_ <= {'name', 'body'}
             detw = 'definitions %s, fields overwritten %s' % ([show(d_)[:60] for d_ in inits], sorted(fields_))
+            if not okw:
+                # built afresh with the crate's constructors / builders: every other field must end up as the element's own
+                roots, bad = set(), []
+                for k_ in ('visibility', 'doc', 'arguments', 'return_type', 'calling_convention'):
+                    fv = final_field_value(cf, pv, k_)
+                    fv = strip(fv) if fv is not None else None
+                    if fv is not None and fv[0] == 'field' and fv[2] == k_:
+                        roots.add(repr(strip(fv[1])))
+                    else:
+                        bad.append(k_)
+                okw = not bad and len(roots) == 1
+                detw = 'built field by field; not the element\'s own: %s' % bad
         else:
             okw = whole_clone(pv)
             detw = show(pv)[:100]
-    ctx.ob(['C07', 'C17'], 'R-SLP', 'C07|forwarder-keeps-everything-else', okw,
+    ctx.ob(['C07', 'C17', 'C16'], 'R-SLP', 'C07|forwarder-keeps-everything-else', okw,
            'an injected function is a copy of the base\'s function in which only the name (on a clash) and the body are replaced — documentation, visibility, signature and convention are kept: %s' % detw, loc(cf.span))
 
 
